@@ -29,7 +29,7 @@ pub const KINDS: &[&str] = &[
 ];
 
 /// Characters whose UTF-16 code units contain the byte 0x0A (or 0x0D): framing must not be confused by them.
-pub const TRICKY: &[&str] = &["Title:a\u{4E0A}b", "Tags:\u{010A}\u{0A0A} x", "Artist:\u{0A00}", "Source:\u{0D0A}\u{0A0D}", "Title:\u{FEFF}x", "Version:\u{200A}"];
+pub const TRICKY: &[&str] = &["Title:x\u{4E0A}", "Tags:\u{0A05}", "Artist:\u{0100}\u{0A00}y", "// c \u{4E00}\u{0A4D}ode:3", "Source:\u{0A0A}", "Title:a\u{4E0A}b", "Tags:\u{010A}\u{0A0A} x", "Artist:\u{0A00}", "Source:\u{0D0A}\u{0A0D}", "Title:\u{FEFF}x", "Version:\u{200A}"];
 
 fn enum_maxlen(tier: Tier) -> u32 {
     match tier {
